@@ -67,7 +67,25 @@ func genBroadTransferNoPassthrough(t *rapid.T, w *world.World) kit.Transfer {
 
 func genMixedPacket(t *rapid.T, w *world.World) kit.Transfer {
 	tr := genBroadTransfer(t, w)
-	switch pick(t, "packet/class", []string{"orbiter", "orbiter", "orbiter", "orbiter", "orbiter", "orbiter", "receiver", "receiver", "mutated", "garbage"}) {
+	switch pick(t, "packet/class", []string{"orbiter", "orbiter", "orbiter", "orbiter", "orbiter", "orbiter", "receiver", "receiver", "mutated", "garbage", "spelled", "crossed-token"}) {
+	case "crossed-token":
+		// small amounts, so that a balance left on the orbiter account by a deposit could pay for it
+		tr.Route, _ = kit.CrossedTokenRoute(t, w, "crossed", tr.Denom)
+		tr.Amount = fmt.Sprint(1 + rapid.IntRange(0, 999).Draw(t, "crossed/amount"))
+		tr.Actions = nil
+	case "spelled":
+		// the same transfer with the packet data written in a JSON spelling on which decoders
+		// disagree (kit.SpellPacketData); whatever each layer reads, nothing may stay on the
+		// orbiter account and value must be conserved
+		if memo, err := kit.BuildMemo(w.Cdc, tr, false); err == nil {
+			f := kit.PacketFields{Denom: world.ReturnDenom(tr.Channel, tr.Denom), Amount: tr.Amount, Sender: world.ForeignSender, Receiver: world.OrbiterAddr.String(), Memo: memo}
+			alt := kit.PlainUser(t, "spelled/alt")
+			if kit.Chance(t, "spelled/foreign-first", 30) {
+				f.Receiver, alt = alt, f.Receiver
+			}
+			text, _ := kit.SpellPacketData(t, "spelled", f, alt)
+			tr.RawData = []byte(text)
+		}
 	case "receiver":
 		tr.Receiver = receiverVariant(t, pick(t, "rcv/class", receiverVariants[1:]))
 	case "mutated":
